@@ -17,6 +17,9 @@ def check(rep, tier, seed):
     for i in range(n):
         vi = rnd.random() < 0.25
         start, hist = E.start_cmds(rnd, vi)
+        repeated = (not vi) and rnd.random() < 0.2
+        if repeated:      # the same text killed more than once, with other kills in between
+            start, hist = E.type_text(rnd.choice(["foo bar foo ", "ab ab ab ", "x y x y ", "one two one two one "])), None
         cmds = list(start)
         modelled = True
         if vi:
@@ -33,8 +36,8 @@ def check(rep, tier, seed):
         else:
             cmds += E.moves(rnd, False, rnd.randrange(0, 4))
             kills = []
-            for _ in range(rnd.choice([1, 1, 1, 2, 3])):
-                name = rnd.choice(E.EM_KILLS + (SWEEP_KILLS if rnd.random() < 0.1 else []))
+            for _ in range(rnd.choice([1, 1, 1, 2, 3]) if not repeated else rnd.choice([3, 4, 5])):
+                name = rnd.choice(E.EM_KILLS + (SWEEP_KILLS if rnd.random() < 0.1 else [])) if not repeated else rnd.choice(["backward-kill-word", "kill-word", "backward-kill-word"])
                 k = []
                 if name == "kill-region":
                     k += [("set-mark",)] + E.moves(rnd, False, rnd.randrange(1, 3))
@@ -44,7 +47,7 @@ def check(rep, tier, seed):
                 if name in SWEEP_KILLS:
                     modelled = False
                 kills.append(k)
-                if len(kills) < 3 and rnd.random() < 0.5:
+                if len(kills) < 3 and rnd.random() < 0.5 and not repeated:
                     kills[-1] += E.moves(rnd, False, 1)
             yank = ("yank",)
         kill_idx = []
